@@ -335,6 +335,7 @@ pub fn transition_labels(before: &Dump, after: &Dump, was_clear_like: bool) -> u
             l |= L_RESIZE_DOWN;
         } else if after.ctrl_addr == before.ctrl_addr
             && before.n_deleted() > 0
+            && before.growth_left == 0
             && after.n_deleted() == 0
             && after.items >= before.items
             && before.items > 0
